@@ -1,5 +1,924 @@
-import JsonC.Model.Arraylist
-import JsonC.Spec.Seq
+/-
+  C07  A JSON array behaves as a sequence with null gaps under any operation history.
+
+  Property theorems only.  Model: JsonC/Model/Arraylist.lean (transcription of arraylist.c over
+  `size_t` with every wrap, bounds and initialisation check explicit; `free_fn` calls logged; the
+  allocator, qsort and bsearch are parameters).  Spec: JsonC/Spec/Seq.lean (a plain `List (Option Id)`).
+  `Rep a s` (Lemmas) = "list state `a` represents sequence `s`" is both the representation invariant
+  and the abstraction relation.  "No fault" (= no size_t wrap, no access outside the allocation, no
+  read of an uninitialised slot) is the `∃ r, … = .ok r` in every statement.  Nothing is assumed of
+  the allocator: a refused request is one of the ways a call may fail (leaving everything unchanged).
+-/
+import JsonC.Lemmas.Arraylist
+
 namespace JsonC.Arraylist
-theorem stub : True := trivial
+open JsonC Generated
+open JsonC.Seq (Seq maxLen)
+
+/-! ## Each function refines the list specification -/
+
+theorem putIdx_refines (alloc : Alloc) (a : Al) (s : Seq) (h : Rep a s) (idx : Nat)
+    (hidx : idx ≤ SIZE_T_MAX) (data : Elem) :
+    ∃ r, putIdx alloc a idx data = .ok r ∧
+      ((r.ret = 0 ∧ Rep r.al (Seq.put s idx data) ∧ r.released = Seq.putReleased s idx ∧
+          Seq.fits (idx + 1) ≠ .mustRefuse) ∨
+       (r.ret = -1 ∧ r.al = a ∧ r.released = [] ∧
+          (Seq.fits (idx + 1) ≠ .mustServe ∨ ∃ b, alloc b = false))) := by
+  obtain ⟨-, -, hPG, hPN, -⟩ := consts
+  have hdbl := maxLen_double
+  unfold putIdx
+  rw [hPG, hPN]
+  by_cases h0 : idx > SIZE_T_MAX - 1
+  · rw [if_pos h0]
+    exact ⟨_, rfl, Or.inr ⟨rfl, rfl, rfl, Or.inl (fits_gt _ (by omega))⟩⟩
+  · rw [if_neg h0, ckSize_ok _ _ (by omega)]
+    simp only [Outcome.bind_ok]
+    obtain ⟨a1, rc, he, hcase⟩ := expand_spec alloc a s h (idx + 1) (by omega)
+    rw [he]; simp only [Outcome.bind_ok]
+    rcases hcase with ⟨hrc, h1, hsz, hlen, -, -⟩ | ⟨hrc, ha1, hge, hwhy⟩
+    · subst hrc
+      rw [if_neg (by simp)]
+      obtain ⟨t, ht⟩ := h1.slots
+      have hl1 := h1.length
+      have hs1 := h1.size
+      have hc1 := h1.cap
+      by_cases hin : idx < s.length
+      · -- overwrite
+        rw [if_pos (by omega), h1.read idx hin]
+        simp only [Outcome.bind_ok, Outcome.pure_eq]
+        unfold writeSlot
+        rw [if_pos (by omega)]
+        simp only [Outcome.bind_ok]
+        rw [if_neg (by omega), if_neg (by simp; omega)]
+        refine ⟨_, rfl, Or.inl ⟨rfl, ?_, ?_, fits_le _ (by omega)⟩⟩
+        · unfold Seq.put; rw [if_pos hin]
+          refine ⟨⟨t, ?_⟩, ?_, ?_, ?_⟩
+          · simp only []
+            rw [ht, List.set_append, if_pos (by simpa using hin), List.map_set]
+          · simp only []; rw [hl1]; simp
+          · simp only []; rw [hs1]; simp
+          · exact hc1
+        · exact (putReleased_eq s idx hin).symm
+      · -- at or beyond the end
+        rw [if_neg (by omega)]
+        simp only [Outcome.bind_ok, Outcome.pure_eq]
+        unfold writeSlot
+        rw [if_pos (by omega)]
+        simp only [Outcome.bind_ok]
+        have hset : a1.slots.set idx (Slot.val data) =
+            s.map Slot.val ++ t.set (idx - s.length) (Slot.val data) := by
+          rw [ht, List.set_append, if_neg (by simp; omega)]; simp
+        have htl : idx - s.length < t.length := by
+          have : a1.slots.length = s.length + t.length := by rw [ht]; simp
+          omega
+        have hfinal : ∀ slots' : List Slot,
+            slots' = s.map Slot.val ++ List.replicate (idx - s.length) (Slot.val none) ++
+              Slot.val data :: t.drop (idx - s.length + 1) →
+            Rep { slots := slots', length := idx + 1, size := a1.size } (Seq.put s idx data) := by
+          intro slots' hs'
+          unfold Seq.put; rw [if_neg hin]
+          refine ⟨⟨t.drop (idx - s.length + 1), ?_⟩, ?_, ?_, hc1⟩
+          · simp only []; rw [hs']; simp
+          · simp; omega
+          · simp only []; rw [hs', hs1, ht]; simp; omega
+        by_cases hgap : idx > s.length
+        · rw [if_pos (by simp; omega)]
+          rw [ckSub_ok _ _ _ (by omega)]
+          simp only [Outcome.bind_ok]
+          rw [ckSize_ok _ _ (mul_ptr_le _ (by omega))]
+          simp only [Outcome.bind_ok]
+          unfold memsetNull
+          rw [if_pos (by simp; omega)]
+          simp only [Outcome.bind_ok]
+          rw [if_pos (by omega), ckSize_ok _ _ (by omega)]
+          simp only [Outcome.bind_ok]
+          refine ⟨_, rfl, Or.inl ⟨rfl, ?_, (putReleased_ge s idx (by omega)).symm, fits_le _ (by omega)⟩⟩
+          apply hfinal
+          rw [hset, hl1]
+          have := put_shape (s.map Slot.val) t (idx - s.length) (Slot.val data) htl
+          simp only [List.length_map] at this
+          exact this
+        · rw [if_neg (by simp; omega)]
+          try simp only [Outcome.bind_ok, Outcome.pure_eq]
+          rw [if_pos (by first | omega | (simp; omega)), ckSize_ok _ _ (by omega)]
+          simp only [Outcome.bind_ok]
+          refine ⟨_, rfl, Or.inl ⟨rfl, ?_, (putReleased_ge s idx (by omega)).symm, fits_le _ (by omega)⟩⟩
+          apply hfinal
+          rw [hset]
+          have e : idx - s.length = 0 := by omega
+          rw [e]
+          have := drop_set_self t 0 (Slot.val data) (by omega)
+          simp only [List.drop_zero] at this
+          rw [this]; simp
+    · subst hrc; subst ha1
+      rw [if_pos (by simp)]
+      refine ⟨_, rfl, Or.inr ⟨rfl, rfl, rfl, ?_⟩⟩
+      rcases hwhy with hw | hw | hw
+      · exact Or.inl (fits_gt _ (by omega))
+      · exact Or.inl (fits_gt _ (by omega))
+      · exact Or.inr hw
+
+theorem add_refines (alloc : Alloc) (a : Al) (s : Seq) (h : Rep a s) (data : Elem) :
+    ∃ r, add alloc a data = .ok r ∧
+      ((r.ret = 0 ∧ Rep r.al (Seq.add s data) ∧ r.released = [] ∧
+          Seq.fits (s.length + 1) ≠ .mustRefuse) ∨
+       (r.ret = -1 ∧ r.al = a ∧ r.released = [] ∧
+          (Seq.fits (s.length + 1) ≠ .mustServe ∨ ∃ b, alloc b = false))) := by
+  obtain ⟨-, -, -, -, hAG, hAN, -⟩ := consts
+  have hdbl := maxLen_double
+  have hle := h.le
+  have hcap := h.cap
+  have hlen := h.length
+  unfold add
+  simp only []
+  rw [hAG, hAN, if_neg (by omega), ckSize_ok _ _ (by omega)]
+  simp only [Outcome.bind_ok]
+  obtain ⟨a1, rc, he, hcase⟩ := expand_spec alloc a s h (a.length + 1) (by omega)
+  rw [he]; simp only [Outcome.bind_ok]
+  rcases hcase with ⟨hrc, h1, hsz, hlen1, -, -⟩ | ⟨hrc, ha1, hge, hwhy⟩
+  · subst hrc
+    rw [if_neg (by simp)]
+    obtain ⟨t, ht⟩ := h1.slots
+    have hs1 := h1.size
+    have hc1 := h1.cap
+    have htl : 0 < t.length := by
+      have : a1.slots.length = s.length + t.length := by rw [ht]; simp
+      omega
+    unfold writeSlot
+    rw [if_pos (by omega)]
+    simp only [Outcome.bind_ok]
+    rw [ckSize_ok _ _ (by omega)]
+    simp only [Outcome.bind_ok]
+    refine ⟨_, rfl, Or.inl ⟨rfl, ?_, rfl, fits_le _ (by omega)⟩⟩
+    refine ⟨⟨t.drop 1, ?_⟩, ?_, ?_, hc1⟩
+    · simp only []
+      rw [ht, hlen, List.set_append, if_neg (by simp)]
+      have := drop_set_self t 0 (Slot.val data) htl
+      simp only [List.drop_zero] at this
+      simp [Seq.add, this]
+    · simp [Seq.add]; omega
+    · simp only []; rw [hs1]; simp
+  · subst hrc; subst ha1
+    rw [if_pos (by simp)]
+    refine ⟨_, rfl, Or.inr ⟨rfl, rfl, rfl, ?_⟩⟩
+    rcases hwhy with hw | hw | hw
+    · exact Or.inl (fits_gt _ (by omega))
+    · exact Or.inl (fits_gt _ (by omega))
+    · exact Or.inr hw
+
+theorem insertIdx_refines (alloc : Alloc) (a : Al) (s : Seq) (h : Rep a s) (idx : Nat)
+    (hidx : idx ≤ SIZE_T_MAX) (data : Elem) :
+    ∃ r, insertIdx alloc a idx data = .ok r ∧
+      ((r.ret = 0 ∧ Rep r.al (Seq.insert s idx data) ∧ r.released = [] ∧
+          Seq.fits (max (idx + 1) (s.length + 1)) ≠ .mustRefuse) ∨
+       (r.ret = -1 ∧ r.al = a ∧ r.released = [] ∧
+          (Seq.fits (max (idx + 1) (s.length + 1)) ≠ .mustServe ∨ ∃ b, alloc b = false))) := by
+  obtain ⟨-, -, -, -, -, -, hIN, -⟩ := consts
+  have hdbl := maxLen_double
+  have hle := h.le
+  have hcap := h.cap
+  have hlen := h.length
+  unfold insertIdx
+  by_cases hin : idx ≥ a.length
+  · rw [if_pos hin]
+    obtain ⟨r, hr, hcase⟩ := putIdx_refines alloc a s h idx hidx data
+    have hmax : max (idx + 1) (s.length + 1) = idx + 1 := by omega
+    have hins : Seq.insert s idx data = Seq.put s idx data := by
+      unfold Seq.insert; rw [if_neg (by omega)]
+    rw [hmax, hins]
+    refine ⟨r, hr, ?_⟩
+    rcases hcase with ⟨h1, h2, h3, h4⟩ | hc
+    · exact Or.inl ⟨h1, h2, by rw [h3, putReleased_ge s idx (by omega)], h4⟩
+    · exact Or.inr hc
+  · rw [if_neg hin, if_neg (by omega), hIN, ckSize_ok _ _ (by omega)]
+    have hmax : max (idx + 1) (s.length + 1) = s.length + 1 := by omega
+    rw [hmax]
+    simp only [Outcome.bind_ok]
+    obtain ⟨a1, rc, he, hcase⟩ := expand_spec alloc a s h (a.length + 1) (by omega)
+    rw [he]; simp only [Outcome.bind_ok]
+    rcases hcase with ⟨hrc, h1, hsz, hlen1, -, -⟩ | ⟨hrc, ha1, hge, hwhy⟩
+    · subst hrc
+      rw [if_neg (by simp)]
+      obtain ⟨t, ht⟩ := h1.slots
+      have hs1 := h1.size
+      have hc1 := h1.cap
+      have htl : 0 < t.length := by
+        have : a1.slots.length = s.length + t.length := by rw [ht]; simp
+        omega
+      rw [ckSub_ok _ _ _ (by omega)]
+      simp only [Outcome.bind_ok]
+      rw [ckSize_ok _ _ (mul_ptr_le _ (by omega))]
+      simp only [Outcome.bind_ok]
+      unfold memmoveSlots
+      rw [if_pos (by omega)]
+      simp only [Outcome.bind_ok]
+      -- the allocation as prefix ++ shifted part ++ tail
+      have hsplit : a1.slots = (s.take idx).map Slot.val ++ (s.drop idx).map Slot.val ++ t := by
+        rw [ht, ← List.map_append, List.take_append_drop]
+      have hP : ((s.take idx).map Slot.val).length = idx := by simp; omega
+      have hR : ((s.drop idx).map Slot.val).length = a1.length - idx := by simp; omega
+      have hshape := insert_shape ((s.take idx).map Slot.val) ((s.drop idx).map Slot.val) t (Slot.val data) htl
+      rw [hP, hR, ← hsplit] at hshape
+      unfold writeSlot
+      rw [if_pos (by simp; omega)]
+      simp only [Outcome.bind_ok]
+      rw [ckSize_ok _ _ (by first | omega | (simp; omega))]
+      simp only [Outcome.bind_ok]
+      refine ⟨_, rfl, Or.inl ⟨rfl, ?_, rfl, fits_le _ (by omega)⟩⟩
+      refine ⟨⟨t.drop 1, ?_⟩, ?_, ?_, hc1⟩
+      · simp only []
+        rw [hshape]
+        unfold Seq.insert; rw [if_pos (by omega)]
+        simp
+      · simp only []
+        unfold Seq.insert; rw [if_pos (by omega)]
+        simp; omega
+      · simp only []
+        rw [hshape, hs1, hsplit]; simp; omega
+    · subst hrc; subst ha1
+      rw [if_pos (by simp)]
+      refine ⟨_, rfl, Or.inr ⟨rfl, rfl, rfl, ?_⟩⟩
+      rcases hwhy with hw | hw | hw
+      · exact Or.inl (fits_gt _ (by omega))
+      · exact Or.inl (fits_gt _ (by omega))
+      · exact Or.inr hw
+
+theorem delIdx_refines (a : Al) (s : Seq) (h : Rep a s) (idx count : Nat)
+    (hcount : count ≤ SIZE_T_MAX) :
+    ∃ r, delIdx a idx count = .ok r ∧
+      ((Seq.delOk s idx count = true ∧ r.ret = 0 ∧ Rep r.al (Seq.del s idx count) ∧
+          r.released = Seq.delReleased s idx count ∧ r.al.size = a.size) ∨
+       (Seq.delOk s idx count = false ∧ r.ret = -1 ∧ r.al = a ∧ r.released = [])) := by
+  have hdbl := maxLen_double
+  have hle := h.le
+  have hcap := h.cap
+  have hlen := h.length
+  unfold delIdx
+  rw [ckSub_ok _ _ _ hcount]
+  simp only [Outcome.bind_ok]
+  by_cases h0 : idx > SIZE_T_MAX - count
+  · rw [if_pos h0]
+    refine ⟨_, rfl, Or.inr ⟨?_, rfl, rfl, rfl⟩⟩
+    simp [Seq.delOk]; omega
+  · rw [if_neg h0, ckSize_ok _ _ (by omega)]
+    simp only [Outcome.bind_ok]
+    by_cases h1 : idx ≥ a.length ∨ idx + count > a.length
+    · rw [if_pos h1]
+      refine ⟨_, rfl, Or.inr ⟨?_, rfl, rfl, rfl⟩⟩
+      simp [Seq.delOk]; omega
+    · rw [if_neg h1]
+      have hok : Seq.delOk s idx count = true := by simp [Seq.delOk]; omega
+      have e1 : idx + count - idx = count := by omega
+      rw [e1, h.releaseLoop count idx (by omega)]
+      simp only [Outcome.bind_ok]
+      rw [ckSub_ok _ _ _ (by omega)]
+      simp only [Outcome.bind_ok]
+      rw [ckSize_ok _ _ (mul_ptr_le _ (by omega))]
+      simp only [Outcome.bind_ok]
+      unfold memmoveSlots
+      rw [if_pos (by rw [← h.size]; omega)]
+      simp only [Outcome.bind_ok]
+      rw [ckSub_ok _ _ _ (by omega)]
+      simp only [Outcome.bind_ok]
+      obtain ⟨t, ht⟩ := h.slots
+      -- the allocation as kept prefix ++ deleted ++ moved ++ tail
+      have hsplit : a.slots = (s.take idx).map Slot.val ++ ((s.drop idx).take count).map Slot.val ++
+          (s.drop (idx + count)).map Slot.val ++ t := by
+        rw [ht, ← List.map_append, ← List.map_append]
+        congr 2
+        rw [List.append_assoc]
+        have : (s.drop idx).take count ++ s.drop (idx + count) = s.drop idx := by
+          rw [← List.drop_drop, List.take_append_drop]
+        rw [this, List.take_append_drop]
+      have hP : ((s.take idx).map Slot.val).length = idx := by simp; omega
+      have hD : (((s.drop idx).take count).map Slot.val).length = count := by simp; omega
+      have hR : ((s.drop (idx + count)).map Slot.val).length = a.length - (idx + count) := by simp; omega
+      have hshape := delete_shape ((s.take idx).map Slot.val) (((s.drop idx).take count).map Slot.val)
+        ((s.drop (idx + count)).map Slot.val) t
+      rw [hP, hD, hR, ← hsplit] at hshape
+      refine ⟨_, rfl, Or.inl ⟨hok, rfl, ?_, rfl, rfl⟩⟩
+      refine ⟨⟨List.drop (a.length - (idx + count)) (((s.drop idx).take count).map Slot.val ++
+          (s.drop (idx + count)).map Slot.val ++ t), ?_⟩, ?_, ?_, hcap⟩
+      · simp only []
+        rw [hshape]
+        unfold Seq.del
+        rw [List.map_append]
+      · simp only []
+        unfold Seq.del
+        simp; omega
+      · simp only []
+        rw [hshape, h.size, hsplit]
+        simp; omega
+
+theorem getIdx_refines (a : Al) (s : Seq) (h : Rep a s) (i : Nat) :
+    getIdx a i = .ok (Seq.get s i) := by
+  unfold getIdx Seq.get
+  by_cases hi : i ≥ a.length
+  · rw [if_pos hi, List.getElem?_eq_none (by rw [← h.length]; exact hi)]
+  · rw [if_neg hi, h.read i (by rw [← h.length]; omega), List.getElem?_eq_getElem (by rw [← h.length]; omega)]
+
+theorem free_refines (a : Al) (s : Seq) (h : Rep a s) :
+    free a = .ok (Seq.freeReleased s) := by
+  unfold free
+  rw [h.readRange]
+  simp only [Outcome.bind_ok, Outcome.pure_eq]
+  rw [flatMap_releaseOf]; rfl
+
+theorem sort_refines (qs : List Elem → List Elem) (a : Al) (s : Seq) (h : Rep a s)
+    (hq : (qs s).length = s.length) :
+    ∃ r, sort qs a = .ok r ∧ r.ret = 0 ∧ Rep r.al (qs s) ∧ r.released = [] ∧ r.al.size = a.size := by
+  unfold sort
+  rw [h.readRange]
+  simp only [Outcome.bind_ok]
+  rw [if_neg (by simpa using hq)]
+  refine ⟨_, rfl, rfl, ?_, rfl, rfl⟩
+  obtain ⟨t, ht⟩ := h.slots
+  refine ⟨⟨t, ?_⟩, ?_, ?_, h.cap⟩
+  · simp only []
+    rw [ht, h.length, List.drop_left' (by simp)]
+  · simp only []; rw [hq, h.length]
+  · simp only []
+    rw [h.size, ht, h.length, List.drop_left' (by simp)]
+    simp [hq]
+
+theorem shrink_refines (alloc : Alloc) (a : Al) (s : Seq) (h : Rep a s) (n : Nat) :
+    ∃ r, shrink alloc a n = .ok r ∧ Rep r.al s ∧ r.released = [] ∧
+      ((r.ret = 0 ∧ s.length + n ≤ r.al.size ∧ Seq.fits (s.length + n) ≠ .mustRefuse) ∨
+       (r.ret = -1 ∧ r.al = a ∧ (Seq.fits (s.length + n) ≠ .mustServe ∨ ∃ b, alloc b = false))) := by
+  obtain ⟨-, -, -, -, -, -, -, hSM⟩ := consts
+  have hdbl := maxLen_double
+  have hpos := maxLen_pos
+  have hle := h.le
+  have hcap := h.cap
+  have hlen := h.length
+  unfold shrink
+  rw [← maxLen_def, ckSub_ok _ _ _ (by omega)]
+  simp only [Outcome.bind_ok]
+  by_cases h0 : n ≥ maxLen - a.length
+  · rw [if_pos h0]
+    exact ⟨_, rfl, h, rfl, Or.inr ⟨rfl, rfl, Or.inl (fits_gt _ (by omega))⟩⟩
+  · rw [if_neg h0, ckSize_ok _ _ (by omega)]
+    simp only [Outcome.bind_ok]
+    by_cases h1 : a.length + n = a.size
+    · rw [if_pos h1]
+      exact ⟨_, rfl, h, rfl, Or.inl ⟨rfl, by simp only []; omega, fits_le _ (by omega)⟩⟩
+    · rw [if_neg h1]
+      by_cases h2 : a.length + n > a.size
+      · rw [if_pos h2]
+        obtain ⟨a1, rc, he, hcase⟩ := expand_spec alloc a s h (a.length + n) (by omega)
+        rw [he]; simp only [Outcome.bind_ok, Outcome.pure_eq]
+        rcases hcase with ⟨hrc, h1', hsz, -, -, -⟩ | ⟨hrc, ha1, hge, hwhy⟩
+        · subst hrc
+          exact ⟨_, rfl, h1', rfl, Or.inl ⟨rfl, by simp only []; omega, fits_le _ (by omega)⟩⟩
+        · subst hrc; subst ha1
+          refine ⟨_, rfl, h, rfl, Or.inr ⟨rfl, rfl, ?_⟩⟩
+          rcases hwhy with hw | hw | hw
+          · exact Or.inl (fits_gt _ (by omega))
+          · exact Or.inl (fits_gt _ (by omega))
+          · exact Or.inr hw
+      · rw [if_neg h2, hSM]
+        generalize hns : (if a.length + n = 0 then 1 else a.length + n) = ns
+        have hns1 : a.length + n ≤ ns ∧ 1 ≤ ns ∧ ns ≤ a.size := by rw [← hns]; split <;> omega
+        rw [ckSize_ok _ _ (mul_ptr_le _ (by omega))]
+        simp only [Outcome.bind_ok]
+        rw [if_neg (mul_ptr_pos _ (by omega))]
+        by_cases h3 : alloc (ns * PTR) = true
+        · rw [if_pos h3]
+          refine ⟨_, rfl, ?_, rfl, Or.inl ⟨rfl, by simp only []; omega, fits_le _ (by omega)⟩⟩
+          obtain ⟨t, ht⟩ := h.slots
+          have hsz := h.size
+          have hre : reallocSlots a.slots ns = a.slots.take ns := by
+            unfold reallocSlots
+            have : ns - a.slots.length = 0 := by omega
+            rw [this]; simp
+          refine ⟨⟨t.take (ns - s.length), ?_⟩, hlen, ?_, by simp only []; omega⟩
+          · simp only []
+            rw [hre, ht, List.take_append, List.take_of_length_le (by simp; omega)]
+            simp
+          · simp only []
+            rw [hre]; simp; omega
+        · rw [if_neg h3]
+          exact ⟨_, rfl, h, rfl, Or.inr ⟨rfl, rfl, Or.inr ⟨_, by simpa using h3⟩⟩⟩
+
+theorem new2_refines (alloc : Alloc) (cap : Int) :
+    ∃ r, new2 alloc cap = .ok r ∧
+      ((∃ a, r = some a ∧ Rep a [] ∧ a.size = cap.toNat ∧ 0 ≤ cap) ∨
+       (r = none ∧ (cap < 0 ∨ cap.toNat ≥ maxLen ∨ ∃ b, alloc b = false))) := by
+  unfold new2
+  rw [← maxLen_def]
+  by_cases h0 : cap < 0 ∨ cap.toNat ≥ maxLen
+  · rw [if_pos h0]
+    refine ⟨_, rfl, Or.inr ⟨rfl, ?_⟩⟩
+    rcases h0 with h0 | h0
+    · exact Or.inl h0
+    · exact Or.inr (Or.inl h0)
+  · rw [if_neg h0]
+    simp only []
+    rw [ckSize_ok _ _ (mul_ptr_le _ (by omega))]
+    simp only [Outcome.bind_ok]
+    by_cases h3 : alloc (cap.toNat * PTR) = true
+    · rw [if_pos h3]
+      refine ⟨_, rfl, Or.inl ⟨_, rfl, ⟨⟨List.replicate cap.toNat .uninit, by simp⟩, rfl, by simp, by simp only []; omega⟩, rfl, by omega⟩⟩
+    · rw [if_neg h3]
+      exact ⟨_, rfl, Or.inr ⟨rfl, Or.inr (Or.inr ⟨_, by simpa using h3⟩)⟩⟩
+
+/-- the ISO C contract of `bsearch` for the comparator `le`, plus memory safety of the result
+on any array (every real `bsearch` returns NULL or the address of an element it looked at) -/
+structure BsearchContract (le : Elem → Elem → Bool) (bs : Elem → List Elem → Option Nat) : Prop where
+  inRange : ∀ k xs i, bs k xs = some i → i < xs.length
+  sound : ∀ k xs i, Seq.Sorted le xs → bs k xs = some i → ∃ e, xs[i]? = some e ∧ Seq.equiv le k e = true
+  complete : ∀ k xs, Seq.Sorted le xs → bs k xs = none → ∀ e ∈ xs, Seq.equiv le k e = false
+
+theorem bsearch_refines (le : Elem → Elem → Bool) (bs : Elem → List Elem → Option Nat)
+    (hb : BsearchContract le bs) (key : Elem) (a : Al) (s : Seq) (h : Rep a s) :
+    ∃ r, bsearch bs key a = .ok r ∧ r.al = a ∧ r.released = [] ∧
+      ((r.ret = 1 ∧ ∃ i, r.pos = some i ∧ s[i]? = some r.val ∧ (Seq.Sorted le s → Seq.equiv le key r.val = true)) ∨
+       (r.ret = 0 ∧ r.val = none ∧ r.pos = none ∧ (Seq.Sorted le s → ∀ e ∈ s, Seq.equiv le key e = false))) := by
+  unfold bsearch
+  rw [h.readRange]
+  simp only [Outcome.bind_ok]
+  cases hbs : bs key s with
+  | none =>
+    simp only []
+    exact ⟨_, rfl, rfl, rfl, Or.inr ⟨rfl, rfl, rfl, fun hs => hb.complete key s hs hbs⟩⟩
+  | some i =>
+    simp only []
+    have hi := hb.inRange key s i hbs
+    rw [List.getElem?_eq_getElem hi]
+    simp only []
+    refine ⟨_, rfl, rfl, rfl, Or.inl ⟨rfl, i, rfl, List.getElem?_eq_getElem hi, fun hs => ?_⟩⟩
+    obtain ⟨e, he, heq⟩ := hb.sound key s i hs hbs
+    rw [List.getElem?_eq_getElem hi] at he
+    cases he
+    exact heq
+
+/-! ## Every operation, every history -/
+
+/-- the ISO C contract of `qsort` for the comparator `le`: when `le` is a total preorder the result
+is a permutation of the input ordered by `le` -/
+structure QsortContract (le : Elem → Elem → Bool) (qs : List Elem → List Elem) : Prop where
+  perm : ∀ xs, (qs xs).Perm xs
+  sorted : Seq.TotalPreorder le → ∀ xs, Seq.Sorted le (qs xs)
+
+/-- what the theorems assume of the environment of a run: the comparator handed to sort/bsearch is
+a total preorder and libc's `qsort`/`bsearch` honour their contracts.  Nothing is assumed of the
+allocator. -/
+structure EnvOK (le : Elem → Elem → Bool) (env : Env) : Prop where
+  le_ok : Seq.TotalPreorder le
+  qs : QsortContract le env.qs
+  bs : BsearchContract le env.bs
+
+/-- arguments are `size_t` values -/
+def Op.WF : Op → Prop
+  | .put i _ => i ≤ SIZE_T_MAX
+  | .ins i _ => i ≤ SIZE_T_MAX
+  | .del i n => i ≤ SIZE_T_MAX ∧ n ≤ SIZE_T_MAX
+  | .shrink n => n ≤ SIZE_T_MAX
+  | .get i => i ≤ SIZE_T_MAX
+  | _ => True
+
+/-- What the specification (a plain list, `Seq`) allows one call to do: `s` the sequence before,
+`ret`/`val` the C results, `rel` the `free_fn` calls, `s'` the sequence after.  `oom` = "the
+allocator refuses some request": a request the specification wants served may then be refused
+(and only then, outside the `Seq.fits` band), leaving everything unchanged. -/
+def OpSpec (le : Elem → Elem → Bool) (oom : Prop) (s : Seq) : Op → Int → Elem → List Id → Seq → Prop
+  | .add v, ret, _, rel, s' =>
+      (ret = 0 ∧ s' = Seq.add s v ∧ rel = [] ∧ Seq.fits (s.length + 1) ≠ .mustRefuse) ∨
+      (ret = -1 ∧ s' = s ∧ rel = [] ∧ (Seq.fits (s.length + 1) ≠ .mustServe ∨ oom))
+  | .put i v, ret, _, rel, s' =>
+      (ret = 0 ∧ s' = Seq.put s i v ∧ rel = Seq.putReleased s i ∧ Seq.fits (i + 1) ≠ .mustRefuse) ∨
+      (ret = -1 ∧ s' = s ∧ rel = [] ∧ (Seq.fits (i + 1) ≠ .mustServe ∨ oom))
+  | .ins i v, ret, _, rel, s' =>
+      (ret = 0 ∧ s' = Seq.insert s i v ∧ rel = [] ∧ Seq.fits (max (i + 1) (s.length + 1)) ≠ .mustRefuse) ∨
+      (ret = -1 ∧ s' = s ∧ rel = [] ∧ (Seq.fits (max (i + 1) (s.length + 1)) ≠ .mustServe ∨ oom))
+  | .del i n, ret, _, rel, s' =>
+      (Seq.delOk s i n = true ∧ ret = 0 ∧ s' = Seq.del s i n ∧ rel = Seq.delReleased s i n) ∨
+      (Seq.delOk s i n = false ∧ ret = -1 ∧ s' = s ∧ rel = [])
+  | .shrink n, ret, _, rel, s' =>
+      s' = s ∧ rel = [] ∧
+      ((ret = 0 ∧ Seq.fits (s.length + n) ≠ .mustRefuse) ∨
+       (ret = -1 ∧ (Seq.fits (s.length + n) ≠ .mustServe ∨ oom)))
+  | .get i, ret, val, rel, s' => ret = 0 ∧ val = Seq.get s i ∧ s' = s ∧ rel = []
+  | .len, ret, _, rel, s' => ret = s.length ∧ s' = s ∧ rel = []
+  | .sort, ret, _, rel, s' => ret = 0 ∧ s'.Perm s ∧ Seq.Sorted le s' ∧ rel = []
+  | .bsearch k, ret, val, rel, s' =>
+      s' = s ∧ rel = [] ∧
+      ((ret = 1 ∧ val ∈ s ∧ (Seq.Sorted le s → Seq.equiv le k val = true)) ∨
+       (ret = 0 ∧ (Seq.Sorted le s → ∀ e ∈ s, Seq.equiv le k e = false)))
+
+/-- One call, any state representing a sequence, any `size_t` arguments, any allocator:
+**no fault** (no `size_t` wrap, no access outside the allocation, no uninitialised read), the
+result again represents a sequence (**refinement**: by `getIdx_refines` its length and every index
+agree with it), and results, release log and new sequence are what `Seq` allows. -/
+theorem step_refines (le : Elem → Elem → Bool) (env : Env) (henv : EnvOK le env) (a : Al) (s : Seq)
+    (h : Rep a s) (op : Op) (hwf : op.WF) :
+    ∃ r, step env a op = .ok r ∧
+      ∃ s', Rep r.al s' ∧ OpSpec le (∃ b, env.alloc b = false) s op r.ret r.val r.released s' := by
+  cases op with
+  | add v =>
+    obtain ⟨r, hr, hc⟩ := add_refines env.alloc a s h v
+    refine ⟨r, hr, ?_⟩
+    rcases hc with ⟨h1, h2, h3, h4⟩ | ⟨h1, h2, h3, h4⟩
+    · exact ⟨_, h2, Or.inl ⟨h1, rfl, h3, h4⟩⟩
+    · exact ⟨s, h2 ▸ h, Or.inr ⟨h1, rfl, h3, h4⟩⟩
+  | put i v =>
+    obtain ⟨r, hr, hc⟩ := putIdx_refines env.alloc a s h i hwf v
+    refine ⟨r, hr, ?_⟩
+    rcases hc with ⟨h1, h2, h3, h4⟩ | ⟨h1, h2, h3, h4⟩
+    · exact ⟨_, h2, Or.inl ⟨h1, rfl, h3, h4⟩⟩
+    · exact ⟨s, h2 ▸ h, Or.inr ⟨h1, rfl, h3, h4⟩⟩
+  | ins i v =>
+    obtain ⟨r, hr, hc⟩ := insertIdx_refines env.alloc a s h i hwf v
+    refine ⟨r, hr, ?_⟩
+    rcases hc with ⟨h1, h2, h3, h4⟩ | ⟨h1, h2, h3, h4⟩
+    · exact ⟨_, h2, Or.inl ⟨h1, rfl, h3, h4⟩⟩
+    · exact ⟨s, h2 ▸ h, Or.inr ⟨h1, rfl, h3, h4⟩⟩
+  | del i n =>
+    obtain ⟨r, hr, hc⟩ := delIdx_refines a s h i n hwf.2
+    refine ⟨r, hr, ?_⟩
+    rcases hc with ⟨h0, h1, h2, h3, _⟩ | ⟨h0, h1, h2, h3⟩
+    · exact ⟨_, h2, Or.inl ⟨h0, h1, rfl, h3⟩⟩
+    · exact ⟨s, h2 ▸ h, Or.inr ⟨h0, h1, rfl, h3⟩⟩
+  | shrink n =>
+    obtain ⟨r, hr, h2, h3, hc⟩ := shrink_refines env.alloc a s h n
+    refine ⟨r, hr, s, h2, rfl, h3, ?_⟩
+    rcases hc with ⟨h1, _, h4⟩ | ⟨h1, _, h4⟩
+    · exact Or.inl ⟨h1, h4⟩
+    · exact Or.inr ⟨h1, h4⟩
+  | get i =>
+    refine ⟨⟨a, 0, Seq.get s i, none, []⟩, ?_, s, h, rfl, rfl, rfl, rfl⟩
+    simp [step, getIdx_refines a s h i]
+  | len =>
+    exact ⟨_, rfl, s, h, by simp [lengthOf, h.length], rfl, rfl⟩
+  | sort =>
+    have hp := henv.qs.perm s
+    obtain ⟨r, hr, h1, h2, h3, _⟩ := sort_refines env.qs a s h hp.length_eq
+    exact ⟨r, hr, _, h2, h1, hp, henv.qs.sorted henv.le_ok s, h3⟩
+  | bsearch k =>
+    obtain ⟨r, hr, h1, h2, hc⟩ := bsearch_refines le env.bs henv.bs k a s h
+    refine ⟨r, hr, s, h1 ▸ h, rfl, h2, ?_⟩
+    rcases hc with ⟨h3, i, _, h5, h6⟩ | ⟨h3, _, _, h6⟩
+    · exact Or.inl ⟨h3, List.mem_of_getElem? h5, h6⟩
+    · exact Or.inr ⟨h3, h6⟩
+
+/-- calls that may fail: they report failure by a non-zero return -/
+def Op.updates : Op → Bool
+  | .add _ | .put .. | .ins .. | .del .. | .shrink _ => true
+  | _ => false
+
+/-- **Failed operations leave everything unchanged** (the whole state, capacity included, and nothing
+is released); so do the read-only calls. -/
+theorem al_fail_unchanged (le : Elem → Elem → Bool) (env : Env) (henv : EnvOK le env) (a : Al) (s : Seq)
+    (h : Rep a s) (op : Op) (hwf : op.WF) (r : Res) (hr : step env a op = .ok r) :
+    (op.updates = true → r.ret ≠ 0 → r.al = a ∧ r.released = []) ∧
+    (op.updates = false → op ≠ .sort → r.al = a ∧ r.released = []) := by
+  cases op with
+  | add v =>
+    obtain ⟨r', hr', hc⟩ := add_refines env.alloc a s h v
+    rw [show step env a (.add v) = add env.alloc a v from rfl] at hr
+    rw [hr] at hr'; cases hr'
+    refine ⟨fun _ hne => ?_, fun hu => by simp [Op.updates] at hu⟩
+    rcases hc with ⟨h1, _⟩ | ⟨_, h2, h3, _⟩
+    · exact absurd h1 hne
+    · exact ⟨h2, h3⟩
+  | put i v =>
+    obtain ⟨r', hr', hc⟩ := putIdx_refines env.alloc a s h i hwf v
+    rw [show step env a (.put i v) = putIdx env.alloc a i v from rfl] at hr
+    rw [hr] at hr'; cases hr'
+    refine ⟨fun _ hne => ?_, fun hu => by simp [Op.updates] at hu⟩
+    rcases hc with ⟨h1, _⟩ | ⟨_, h2, h3, _⟩
+    · exact absurd h1 hne
+    · exact ⟨h2, h3⟩
+  | ins i v =>
+    obtain ⟨r', hr', hc⟩ := insertIdx_refines env.alloc a s h i hwf v
+    rw [show step env a (.ins i v) = insertIdx env.alloc a i v from rfl] at hr
+    rw [hr] at hr'; cases hr'
+    refine ⟨fun _ hne => ?_, fun hu => by simp [Op.updates] at hu⟩
+    rcases hc with ⟨h1, _⟩ | ⟨_, h2, h3, _⟩
+    · exact absurd h1 hne
+    · exact ⟨h2, h3⟩
+  | del i n =>
+    obtain ⟨r', hr', hc⟩ := delIdx_refines a s h i n hwf.2
+    rw [show step env a (.del i n) = delIdx a i n from rfl] at hr
+    rw [hr] at hr'; cases hr'
+    refine ⟨fun _ hne => ?_, fun hu => by simp [Op.updates] at hu⟩
+    rcases hc with ⟨_, h1, _⟩ | ⟨_, _, h2, h3⟩
+    · exact absurd h1 hne
+    · exact ⟨h2, h3⟩
+  | shrink n =>
+    obtain ⟨r', hr', _, h3, hc⟩ := shrink_refines env.alloc a s h n
+    rw [show step env a (.shrink n) = shrink env.alloc a n from rfl] at hr
+    rw [hr] at hr'; cases hr'
+    refine ⟨fun _ hne => ?_, fun hu => by simp [Op.updates] at hu⟩
+    rcases hc with ⟨h1, _⟩ | ⟨_, h2, _⟩
+    · exact absurd h1 hne
+    · exact ⟨h2, h3⟩
+  | get i =>
+    refine ⟨fun hu => by simp [Op.updates] at hu, fun _ _ => ?_⟩
+    simp [step, getIdx_refines a s h i] at hr
+    cases hr; exact ⟨rfl, rfl⟩
+  | len =>
+    refine ⟨fun hu => by simp [Op.updates] at hu, fun _ _ => ?_⟩
+    simp [step] at hr
+    cases hr; exact ⟨rfl, rfl⟩
+  | sort => exact ⟨fun hu => by simp [Op.updates] at hu, fun _ hne => absurd rfl hne⟩
+  | bsearch k =>
+    obtain ⟨r', hr', h1, h2, _⟩ := bsearch_refines le env.bs henv.bs k a s h
+    rw [show step env a (.bsearch k) = bsearch env.bs k a from rfl] at hr
+    rw [hr] at hr'; cases hr'
+    exact ⟨fun hu => by simp [Op.updates] at hu, fun _ _ => ⟨h1, h2⟩⟩
+
+/-- what the specification says a call releases, given its return value -/
+def specReleased (s : Seq) : Op → Int → List Id
+  | .put i _, 0 => Seq.putReleased s i
+  | .del i n, 0 => Seq.delReleased s i n
+  | _, _ => []
+
+/-- **The release log is exact**: a call hands to `free_fn` exactly the element overwritten by a
+successful put (if not null) resp. the non-null elements of a successfully deleted range, each once,
+in index order, and nothing else — in particular nothing when it fails. -/
+theorem al_release_log (le : Elem → Elem → Bool) (oom : Prop) (s s' : Seq) (op : Op) (ret : Int) (val : Elem)
+    (rel : List Id) (h : OpSpec le oom s op ret val rel s') : rel = specReleased s op ret := by
+  cases op with
+  | add v => rcases h with ⟨_, _, h3, _⟩ | ⟨_, _, h3, _⟩ <;> simp [specReleased, h3]
+  | put i v =>
+    rcases h with ⟨h1, _, h3, _⟩ | ⟨h1, _, h3, _⟩
+    · subst h1; exact h3
+    · subst h1; exact h3
+  | ins i v => rcases h with ⟨_, _, h3, _⟩ | ⟨_, _, h3, _⟩ <;> simp [specReleased, h3]
+  | del i n =>
+    rcases h with ⟨_, h1, _, h3⟩ | ⟨_, h1, _, h3⟩
+    · subst h1; exact h3
+    · subst h1; exact h3
+  | shrink n => simp [specReleased, h.2.1]
+  | get i => simp [specReleased, h.2.2.2]
+  | len => simp [specReleased, h.2.2]
+  | sort => simp [specReleased, h.2.2.2]
+  | bsearch k => simp [specReleased, h.2.1]
+
+/-- what the specification allows a whole history to do -/
+def RunSpec (le : Elem → Elem → Bool) (oom : Prop) : Seq → List Op → List Res → Seq → Prop
+  | s, [], [], s' => s' = s
+  | s, op :: ops, r :: rs, s' =>
+      ∃ s1, OpSpec le oom s op r.ret r.val r.released s1 ∧ RunSpec le oom s1 ops rs s'
+  | _, _, _, _ => False
+
+/-- C07 lifted to **every finite history** of `size_t`-argument calls from every state representing
+a sequence: the run never faults, the final state represents a sequence, and every return value,
+every value read, every release and every intermediate sequence are those `Seq` allows. -/
+theorem run_refines (le : Elem → Elem → Bool) (env : Env) (henv : EnvOK le env) (ops : List Op) :
+    ∀ (a : Al) (s : Seq), Rep a s → (∀ op ∈ ops, op.WF) →
+      ∃ q rs s', run env a ops = .ok (q, rs) ∧ Rep q s' ∧
+        RunSpec le (∃ b, env.alloc b = false) s ops rs s' := by
+  induction ops with
+  | nil => intro a s h _; exact ⟨a, [], s, rfl, h, rfl⟩
+  | cons op ops ih =>
+    intro a s h hwf
+    obtain ⟨r, hr, s1, h1, hspec⟩ := step_refines le env henv a s h op (hwf op (by simp))
+    obtain ⟨q, rs, s', hrun, hq, hrs⟩ := ih r.al s1 h1 (fun o ho => hwf o (by simp [ho]))
+    refine ⟨q, r :: rs, s', ?_, hq, s1, hspec, hrs⟩
+    simp [run, hr, hrun]
+
+/-- **From every initial capacity, zero included** (`array_list_new2(free_fn, cap)` for any `int`):
+the constructor either refuses (negative capacity or allocator) or yields the empty sequence, and
+every history from there refines `Seq`. -/
+theorem run_from_new (le : Elem → Elem → Bool) (env : Env) (henv : EnvOK le env) (cap : Int)
+    (hint : cap ≤ (intMax : Int)) (ops : List Op) (hwf : ∀ op ∈ ops, op.WF) :
+    ∃ r, new2 env.alloc cap = .ok r ∧
+      ((r = none ∧ (cap < 0 ∨ ∃ b, env.alloc b = false)) ∨
+       (∃ a q rs s', r = some a ∧ a.size = cap.toNat ∧ run env a ops = .ok (q, rs) ∧ Rep q s' ∧
+          RunSpec le (∃ b, env.alloc b = false) [] ops rs s')) := by
+  obtain ⟨r, hr, hc⟩ := new2_refines env.alloc cap
+  refine ⟨r, hr, ?_⟩
+  rcases hc with ⟨a, ha, hrep, hsz, _⟩ | ⟨hn, hwhy⟩
+  · obtain ⟨q, rs, s', hrun, hq, hrs⟩ := run_refines le env henv ops a [] hrep hwf
+    exact Or.inr ⟨a, q, rs, s', ha, hsz, hrun, hq, hrs⟩
+  · refine Or.inl ⟨hn, ?_⟩
+    rcases hwhy with hw | hw | hw
+    · exact Or.inl hw
+    · -- an `int` capacity is always below SIZE_MAX / sizeof(void *)
+      exact absurd hw (by have := intMax_lt_maxLen; omega)
+    · exact Or.inr hw
+
+/-- **No fault**: no history reaches undefined behaviour, an out-of-bounds or uninitialised read,
+or a `size_t` wrap. -/
+theorem al_no_fault (le : Elem → Elem → Bool) (env : Env) (henv : EnvOK le env) (a : Al) (s : Seq)
+    (h : Rep a s) (ops : List Op) (hwf : ∀ op ∈ ops, op.WF) : (run env a ops).isOk = true := by
+  obtain ⟨q, rs, s', hrun, _⟩ := run_refines le env henv ops a s h hwf
+  rw [hrun]; rfl
+
+/-- **Refinement, observably**: whenever a state represents `s` (so after every operation of every
+history), `array_list_length` is the length of `s`, `array_list_get_idx` at every index — inside
+or past the end, up to SIZE_MAX and beyond — returns what `Seq.get` does (null past the end),
+without fault, and destroying the list releases exactly the non-null elements still in it. -/
+theorem al_refines (a : Al) (s : Seq) (h : Rep a s) :
+    lengthOf a = s.length ∧ (∀ i, getIdx a i = .ok (Seq.get s i)) ∧
+      (∀ i, s.length ≤ i → getIdx a i = .ok none) ∧ free a = .ok (Seq.freeReleased s) := by
+  refine ⟨h.length, fun i => getIdx_refines a s h i, fun i hi => ?_, free_refines a s h⟩
+  rw [getIdx_refines a s h i]; unfold Seq.get; rw [List.getElem?_eq_none hi]
+
+/-! ## Sort and binary search under the libc contracts -/
+
+/-- **Sorting yields a permutation ordered by the comparator** (given qsort's contract), releases
+nothing, never fails, and keeps the capacity. -/
+theorem sort_perm_sorted (le : Elem → Elem → Bool) (hle : Seq.TotalPreorder le)
+    (qs : List Elem → List Elem) (hq : QsortContract le qs) (a : Al) (s : Seq) (h : Rep a s) :
+    ∃ r s', sort qs a = .ok r ∧ r.ret = 0 ∧ Rep r.al s' ∧ s'.Perm s ∧ Seq.Sorted le s' ∧
+      r.released = [] ∧ r.al.size = a.size := by
+  have hp := hq.perm s
+  obtain ⟨r, hr, h1, h2, h3, h4⟩ := sort_refines qs a s h hp.length_eq
+  exact ⟨r, _, hr, h1, h2, hp, hq.sorted hle s, h3, h4⟩
+
+/-- **Binary search finds an element iff the sequence holds one equivalent to the key** (given
+bsearch's contract, on a sequence ordered by the comparator), and what it returns is such an element. -/
+theorem bsearch_iff (le : Elem → Elem → Bool) (bs : Elem → List Elem → Option Nat)
+    (hb : BsearchContract le bs) (key : Elem) (a : Al) (s : Seq) (h : Rep a s) (hs : Seq.Sorted le s) :
+    ∃ r, bsearch bs key a = .ok r ∧ r.al = a ∧
+      (r.ret = 1 ↔ ∃ e ∈ s, Seq.equiv le key e = true) ∧
+      (r.ret = 1 → r.val ∈ s ∧ Seq.equiv le key r.val = true) ∧ (r.ret = 1 ∨ r.ret = 0) := by
+  obtain ⟨r, hr, h1, _, hc⟩ := bsearch_refines le bs hb key a s h
+  refine ⟨r, hr, h1, ?_⟩
+  rcases hc with ⟨h3, i, _, h5, h6⟩ | ⟨h3, _, _, h6⟩
+  · have hm := List.mem_of_getElem? h5
+    exact ⟨⟨fun _ => ⟨r.val, hm, h6 hs⟩, fun _ => h3⟩, fun _ => ⟨hm, h6 hs⟩, Or.inl h3⟩
+  · refine ⟨⟨fun h1' => by rw [h3] at h1'; simp at h1', fun ⟨e, he, heq⟩ => ?_⟩,
+      fun h1' => by rw [h3] at h1'; simp at h1', Or.inr h3⟩
+    rw [h6 hs e he] at heq; simp at heq
+
+/-- after a sort, a search sees an ordered sequence: sort-then-search finds `key` iff present -/
+theorem sort_then_bsearch (le : Elem → Elem → Bool) (env : Env) (henv : EnvOK le env) (key : Elem)
+    (a : Al) (s : Seq) (h : Rep a s) :
+    ∃ q rs, run env a [.sort, .bsearch key] = .ok (q, rs) ∧
+      ∃ r1 r2, rs = [r1, r2] ∧ (r2.ret = 1 ↔ ∃ e ∈ s, Seq.equiv le key e = true) := by
+  obtain ⟨r1, s1, hr1, _, hrep1, hperm, hsorted, _, _⟩ :=
+    sort_perm_sorted le henv.le_ok env.qs henv.qs a s h
+  obtain ⟨r2, hr2, hal, hiff, _, _⟩ := bsearch_iff le env.bs henv.bs key r1.al s1 hrep1 hsorted
+  refine ⟨r2.al, [r1, r2], ?_, r1, r2, rfl, ?_⟩
+  · simp [run, step, hr1, hr2]
+  · rw [hiff]
+    constructor
+    · rintro ⟨e, he, heq⟩; exact ⟨e, hperm.mem_iff.mp he, heq⟩
+    · rintro ⟨e, he, heq⟩; exact ⟨e, hperm.mem_iff.mpr he, heq⟩
+
+/-! ## The contracts are satisfiable: the reference implementations honour them -/
+
+/-- core's verified merge sort (the driver's stand-in for qsort) honours the qsort contract -/
+theorem refSort_contract (le : Elem → Elem → Bool) : QsortContract le (Seq.sort le) where
+  perm := fun xs => List.mergeSort_perm xs le
+  sorted := fun hle xs =>
+    List.pairwise_mergeSort hle.trans (fun a b => by
+      rcases hle.total a b with h | h <;> simp [h]) xs
+
+/-- the loop of glibc's bsearch (the driver's stand-in) honours the bsearch contract -/
+theorem refBsearch_contract (le : Elem → Elem → Bool) (hle : Seq.TotalPreorder le) :
+    BsearchContract le (Seq.bsearch le) where
+  inRange := fun k xs i h => by
+    obtain ⟨e, he, _⟩ := bsearchLoop_some le k xs _ _ _ _ h
+    cases hi : decide (i < xs.length) with
+    | true => simpa using hi
+    | false => rw [List.getElem?_eq_none (by simpa using hi)] at he; simp at he
+  sound := fun k xs i _ h => bsearchLoop_some le k xs _ _ _ _ h
+  complete := fun k xs hs h =>
+    bsearchLoop_none le hle k xs hs _ 0 xs.length (Nat.le_refl _) (by omega)
+      (fun j e hj _ => by omega) (fun j e hj he => by
+        rw [List.getElem?_eq_none hj] at he; simp at he) h
+
+theorem leId_totalPreorder : Seq.TotalPreorder Seq.leId where
+  total := fun a b => by
+    cases a <;> cases b <;> simp [Seq.leId]
+    exact Nat.le_total _ _
+  trans := fun a b c => by
+    cases a <;> cases b <;> cases c <;> simp [Seq.leId]
+    exact fun h1 h2 => Nat.le_trans h1 h2
+
+/-- the environment of the correspondence run (allocator with a byte limit, reference sort and
+search, comparator "NULL first, then by id") meets `EnvOK` -/
+theorem refEnv_ok (limit : Nat) :
+    EnvOK Seq.leId { alloc := fun b => decide (b ≤ limit), qs := Seq.sort Seq.leId, bs := Seq.bsearch Seq.leId } where
+  le_ok := leId_totalPreorder
+  qs := refSort_contract Seq.leId
+  bs := refBsearch_contract Seq.leId leId_totalPreorder
+
+/-! ## Conservation: every element handed over is live or was released, exactly once -/
+
+/-- the element a successful call takes over from the caller -/
+def handedOver : Op → Int → List Id
+  | .add v, 0 => Seq.nonNull [v]
+  | .put _ v, 0 => Seq.nonNull [v]
+  | .ins _ v, 0 => Seq.nonNull [v]
+  | _, _ => []
+
+/-- One call: for every handle `x`, copies live afterwards + releases = copies live before +
+copies handed over.  (So an overwritten or deleted element is released exactly once, an element
+still in the sequence is not released, and a failing call releases and takes over nothing.) -/
+theorem op_conserves (le : Elem → Elem → Bool) (oom : Prop) (s s' : Seq) (op : Op) (ret : Int) (val : Elem)
+    (rel : List Id) (h : OpSpec le oom s op ret val rel s') (x : Id) :
+    (Seq.nonNull s').count x + rel.count x = (Seq.nonNull s).count x + (handedOver op ret).count x := by
+  cases op with
+  | add v =>
+    rcases h with ⟨h1, h2, h3, _⟩ | ⟨h1, h2, h3, _⟩
+    · subst h1 h2 h3; simp [handedOver, Seq.add, nonNull_append]
+    · subst h1 h2 h3; simp [handedOver]
+  | put i v =>
+    rcases h with ⟨h1, h2, h3, _⟩ | ⟨h1, h2, h3, _⟩
+    · subst h1 h2 h3
+      simp only [handedOver]
+      unfold Seq.put
+      by_cases hi : i < s.length
+      · rw [if_pos hi, putReleased_eq s i hi, ← nonNull_singleton]
+        have hs : s = s.take i ++ [s[i]] ++ s.drop (i + 1) := by simp
+        have hs' : s.set i v = s.take i ++ [v] ++ s.drop (i + 1) := by
+          rw [List.set_eq_take_append_cons_drop, if_pos hi]; simp
+        rw [hs']
+        conv => rhs; rw [hs]
+        simp only [nonNull_append, List.count_append]
+        omega
+      · rw [if_neg hi, putReleased_ge s i (by omega)]
+        simp [nonNull_append, nonNull_replicate_none]
+    · subst h1 h2 h3; simp [handedOver]
+  | ins i v =>
+    rcases h with ⟨h1, h2, h3, _⟩ | ⟨h1, h2, h3, _⟩
+    · subst h1 h2 h3
+      simp only [handedOver]
+      unfold Seq.insert
+      by_cases hi : i < s.length
+      · rw [if_pos hi]
+        have hs : s = s.take i ++ s.drop i := by simp
+        have e : s.take i ++ v :: s.drop i = s.take i ++ [v] ++ s.drop i := by simp
+        rw [e]
+        conv => rhs; rw [hs]
+        simp only [nonNull_append, List.count_append, List.count_nil]
+        omega
+      · rw [if_neg hi]; unfold Seq.put; rw [if_neg hi]
+        simp [nonNull_append, nonNull_replicate_none]
+    · subst h1 h2 h3; simp [handedOver]
+  | del i n =>
+    rcases h with ⟨_, h1, h2, h3⟩ | ⟨_, h1, h2, h3⟩
+    · subst h1 h2 h3
+      simp only [handedOver, Seq.del, Seq.delReleased]
+      have hs : s = s.take i ++ ((s.drop i).take n ++ s.drop (i + n)) := by
+        rw [← List.drop_drop, List.take_append_drop, List.take_append_drop]
+      conv => rhs; rw [hs]
+      simp only [nonNull_append, List.count_append, List.count_nil]
+      omega
+    · subst h1 h2 h3; simp [handedOver]
+  | shrink n => obtain ⟨h1, h2, _⟩ := h; subst h1 h2; simp [handedOver]
+  | get i => obtain ⟨_, _, h1, h2⟩ := h; subst h1 h2; simp [handedOver]
+  | len => obtain ⟨_, h1, h2⟩ := h; subst h1 h2; simp [handedOver]
+  | sort =>
+    obtain ⟨_, h1, _, h2⟩ := h; subst h2
+    have := (h1.filterMap id).count_eq x
+    simp only [Seq.nonNull, handedOver, List.count_nil]
+    omega
+  | bsearch k => obtain ⟨h1, h2, _⟩ := h; subst h1 h2; simp [handedOver]
+
+/-- **Conservation over every history**: with `released` the concatenated release logs and
+`handed` the elements taken over by the successful calls, every handle satisfies
+live-at-the-end + released = live-at-the-start + handed-over. -/
+theorem run_conserves (le : Elem → Elem → Bool) (oom : Prop) (ops : List Op) :
+    ∀ (s s' : Seq) (rs : List Res), RunSpec le oom s ops rs s' → rs.length = ops.length ∧ ∀ x : Id,
+      (Seq.nonNull s').count x + (rs.flatMap (·.released)).count x =
+        (Seq.nonNull s).count x +
+          ((ops.zip rs).flatMap (fun p => handedOver p.1 p.2.ret)).count x := by
+  induction ops with
+  | nil =>
+    intro s s' rs h
+    cases rs with
+    | nil => simp only [RunSpec] at h; subst h; simp
+    | cons r rs => simp [RunSpec] at h
+  | cons op ops ih =>
+    intro s s' rs h
+    cases rs with
+    | nil => simp [RunSpec] at h
+    | cons r rs =>
+      obtain ⟨s1, hop, hrest⟩ := h
+      obtain ⟨hl, hcount⟩ := ih s1 s' rs hrest
+      refine ⟨by simp [hl], fun x => ?_⟩
+      have h1 := op_conserves le oom s s1 op r.ret r.val r.released hop x
+      have h2 := hcount x
+      simp only [List.flatMap_cons, List.zip_cons_cons, List.count_append]
+      omega
+
+/-! ## Non-vacuity -/
+
+/-- a concrete history from capacity 0 that grows the array, leaves and fills gaps, shifts,
+deletes a range and tries a wrapping range, shrinks, reads past the end, searches and asks for an
+index no allocation can hold — it meets every hypothesis above (`refEnv_ok`) and is computed by
+the model without fault. -/
+example :
+    let env : Env := { alloc := fun b => decide (b ≤ 4096), qs := Seq.sort Seq.leId, bs := Seq.bsearch Seq.leId }
+    ∃ a, new2 env.alloc 0 = .ok (some a) ∧
+      ((run env a [.add (some 7), .put 4 (some 3), .ins 1 (some 9), .put 0 (some 5), .del 1 2,
+          .del 1 SIZE_T_MAX, .shrink 0, .get 9, .bsearch (some 3), .put (SIZE_T_MAX - 1) none]).isOk = true) := by
+  refine ⟨_, rfl, ?_⟩
+  decide
+
+/-- the hypotheses of the sort/search theorems are met by the reference environment on a concrete
+state: capacity 4 holding `[7, null, 3]` -/
+example : ∃ q rs, run { alloc := fun b => decide (b ≤ 4096), qs := Seq.sort Seq.leId, bs := Seq.bsearch Seq.leId }
+      ⟨[.val (some 7), .val none, .val (some 3), .uninit], 3, 4⟩ [.sort, .bsearch (some 3)] = .ok (q, rs) ∧
+    ∃ r1 r2, rs = [r1, r2] ∧ (r2.ret = 1 ↔ ∃ e ∈ [some 7, none, some 3], Seq.equiv Seq.leId (some 3) e = true) :=
+  sort_then_bsearch Seq.leId _ (refEnv_ok 4096) (some 3) _ [some 7, none, some 3]
+    ⟨⟨[.uninit], rfl⟩, rfl, rfl, by decide⟩
+
 end JsonC.Arraylist
